@@ -55,7 +55,13 @@ def gen_extract_doc(rng):
         elif r < 0.86:
             w = names.word(); hidden.append(w)
             out.append('%%% LT-SKIP-BEGIN\n\\inc{' + w + '}\n%%% LT-SKIP-END\n')
-        elif r < 0.93:
+        elif r < 0.9:
+            # inside an environment: a list, a float, an environment whose body is removed from the text (tikzpicture,
+            # circuitikz: the package modules are loaded with --pack *), an undeclared one -- a listed macro is reported all the same
+            env = rng.choice(['itemize', 'figure', 'tikzpicture', 'tikzpicture', 'circuitikz', 'quote', 'zzzenv', 'center', 'table'])
+            out.append('\\begin{%s}%s%s %s\\end{%s}' % (env, '\\item ' if env == 'itemize' else rng.choice([' ', '\n']), listed(0),
+                                                       names.word() if env not in ('tikzpicture', 'circuitikz') else '\\draw (0,0);', env))
+        elif r < 0.95:
             w = names.word(); hidden.append(w)
             out.append(rng.choice(['\\verb|\\inc{' + w + '}|', '\\begin{verbatim}\n\\inc{' + w + '}\n\\end{verbatim}']))
         else:
